@@ -83,17 +83,18 @@ Definition ex_oracle (ff cf : nat -> bool) : oracle :=
            (fun n v => mkV (va v) (300 + N.of_nat n) (400 + N.of_nat n))
            ff cf (fun _ => false).
 
-(* func(pointer to Cfg) (Impl, error) with a default, requested as func() Iface, three calls, the fill
-   failing in the second call: product, panic carrying the fill error, product; three configs *)
+(* func(pointer to Cfg) (Impl, error) with a default, requested as func() Iface, three calls, the
+   fill failing at its third invocation: creation makes and fills one config (and drops it),
+   then product, panic carrying the fill error, product; four configs in all *)
 Example C18_example_run :
   run_case (mkCase (mkShape RPlugin CPtr true false DefVal TImpl) (ReqFactory false) true 3)
-           (ex_oracle (Nat.eqb 1) (fun _ => false)) =
-  ObsFactory [] None
-    [ ([EvDefault 0; EvFill 0 (FTConf 0) (mkV 100 200 0); EvCtor 0 (AConf (mkConf 0 (mkV 100 300 400)))],
-       OOk (mkProd 0 (AConf (mkConf 0 (mkV 100 300 400))) None));
-      ([EvDefault 1; EvFill 1 (FTConf 1) (mkV 101 201 0)], OPanic (EFill 1));
-      ([EvDefault 2; EvFill 2 (FTConf 2) (mkV 102 202 0); EvCtor 1 (AConf (mkConf 2 (mkV 102 302 402)))],
-       OOk (mkProd 1 (AConf (mkConf 2 (mkV 102 302 402))) None)) ].
+           (ex_oracle (Nat.eqb 2) (fun _ => false)) =
+  ObsFactory [EvDefault 0; EvFill 0 (FTConf 0) (mkV 100 200 0)] None
+    [ ([EvDefault 1; EvFill 1 (FTConf 1) (mkV 101 201 0); EvCtor 0 (AConf (mkConf 1 (mkV 101 301 401)))],
+       OOk (mkProd 0 (AConf (mkConf 1 (mkV 101 301 401))) None));
+      ([EvDefault 2; EvFill 2 (FTConf 2) (mkV 102 202 0)], OPanic (EFill 2));
+      ([EvDefault 3; EvFill 3 (FTConf 3) (mkV 103 203 0); EvCtor 1 (AConf (mkConf 3 (mkV 103 303 403)))],
+       OOk (mkProd 1 (AConf (mkConf 3 (mkV 103 303 403))) None)) ].
 Proof. vm_compute. reflexivity. Qed.
 
 (* the specification is not trivially true: a second product sharing the first one's config,
